@@ -6,6 +6,9 @@ Decides the self-consistency of the built-in tables and of their users across th
  K2 every SI unit name returned for a quantity consists of table units with factor exactly 1 (every quantity covered);
  K3 every default unit literal passed to get_physical_value / get_physical_vector in any unit of the library parses,
     and has the dimension of its quantity or one reachable by a registered quantity conversion;
+ K4 every group, attribute and dataset name (with element type and per-ion suffix function) the snapshot reader asks
+    for is one GadgetDensityGridWriter produces; unit attributes stored x conversion applied = 1; parameter keys read back
+    from a snapshot are keys the components read from the parameter file;
  K5 the parameter-file parser keeps its group stack and its indentation stack in lock step and, on a dedent, closes
     EVERY group that is deeper than the new line (a loop, not a single pop); a top-level line clears both.
 Not decided: the parse/print round trip for arbitrary trees as such, numeric precision of printed values, HDF5 I/O.
@@ -322,3 +325,7 @@ def run(chk, prog):
     chk.require(len(clears) >= 1, "K5", "parser: a top-level line closes all open groups", where(yfn),
                 "no statement empties the indentation stack", function=yfn["full"], construct="top level clears")
     chk.floor("K5", n5, 5)
+    # ---- K4 -----------------------------------------------------------------------------------
+    from .c20_k4 import rule_K4, rule_K4_units, rule_K4_parameter_keys
+    n4 = rule_K4(chk, prog) + rule_K4_units(chk, prog, table) + rule_K4_parameter_keys(chk, prog)
+    chk.floor("K4", n4, 25)
